@@ -1,39 +1,53 @@
 #!/usr/bin/env python3
-"""Writes the `params` and `locals` clauses of the func contracts in /repo/**/verif_contracts.go.
+"""Writes the `params`, `locals` and `captures` clauses of the func contracts in /repo/**/verif_contracts.go.
 
 usage: goavc names <pkgs...> > names.tsv ; annotate_names.py names.tsv
 
-params: the target's parameter names (receiver first), bound by position afterwards.
-locals: the named locals of the target that the contract text mentions, in declaration order.
-Run once when a contract is written; goavc never runs it.
+params:   the target's parameter names (receiver first), bound by position afterwards.
+locals:   every named local of the target with its type ("x:T", "x#2:T" for the second variable called x), in
+          declaration order -- written when the contract text mentions one of them. goavc binds the contract's
+          names to the body's locals per type by position when the body is edited (rename.go).
+captures: the captured variables of a closure, bound by position afterwards.
+Run when a contract is written or its target's locals change on purpose; goavc never runs it.
 """
 import re, sys, collections
 entries = collections.defaultdict(list)
 for line in open(sys.argv[1]):
-    loc, name, params, locs = (line.rstrip("\n").split("\t") + ["", "", ""])[:4]
+    loc, name, params, locs, fvs = (line.rstrip("\n").split("\t") + ["", "", "", ""])[:5]
+    if ":" not in loc:
+        continue
     f, ln = loc.rsplit(":", 1)
-    entries[f].append((int(ln), name, params.split(), locs.split()))
+    entries[f].append((int(ln), name, params.split(), locs.split(), fvs.split()))
 for f, es in entries.items():
     lines = open(f).read().split("\n")
-    for ln, name, params, locs in sorted(es, reverse=True):
+    for ln, name, params, locs, fvs in sorted(es, reverse=True):
         i = ln - 1
         assert lines[i].startswith("//@ func"), (f, ln, lines[i])
         j = i + 1
-        while j < len(lines) and lines[j].startswith("//@  "):
+        while j < len(lines) and (lines[j].startswith("//@  ") or (lines[j].startswith("//") and not lines[j].startswith("//@"))):
             j += 1
-        block = lines[i + 1:j]
+        block = [b for b in lines[i + 1:j] if not re.match(r"//@\s+(locals|captures)\b", b)]
         text = "\n".join(block)
         bound = set()
-        for m in re.finditer(r"\b(?:forall|exists)\s+((?:\w+\s+\w+\s*,?\s*)+)::", text):
+        for m in re.finditer(r"\b(?:forall|exists)\s+((?:\w+\s+[\w.*\[\]]+\s*,?\s*)+)::", text):
             toks = m.group(1).replace(",", " ").split()
             bound.update(toks[0::2])
         ins = []
         if params and not any(re.match(r"//@\s+params\b", b) for b in block):
             ins.append("//@   params " + " ".join(params))
-        if not any(re.match(r"//@\s+locals\b", b) for b in block):
-            body = "\n".join(b for b in block if re.match(r"//@\s+(loop|at)\b", b))
-            used = [l for l in locs if l not in params and l not in bound and re.search(r"(?<![\w.])" + re.escape(l) + r"(?![\w(])", body)]
-            if used:
-                ins.append("//@   locals " + " ".join(used))
-        lines[i + 1:i + 1] = ins
+        def mentioned(n):
+            return re.search(r"(?<![\w.])" + re.escape(n) + r"(?![\w(])", text) is not None
+        names = [l.split(":")[0] for l in locs]
+        used = [n for n in names if n.split("#")[0] not in params and n.split("#")[0] not in bound and mentioned(n.split("#")[0])]
+        if used:
+            ins.append("//@   locals " + " ".join(locs))
+        if fvs and any(mentioned(v.split(":")[0]) for v in fvs):
+            ins.append("//@   captures " + " ".join(fvs))
+        # keep a params line first if the block has one
+        k = 0
+        while k < len(block) and re.match(r"//@\s+(params|property)\b", block[k]):
+            k += 1
+        block[k:k] = [x for x in ins if not x.startswith("//@   params")]
+        block[0:0] = [x for x in ins if x.startswith("//@   params")]
+        lines[i + 1:j] = block
     open(f, "w").write("\n".join(lines))
